@@ -15,7 +15,7 @@ use rustrtc::transports::dtls::{Certificate, fingerprint, generate_certificate};
 use std::collections::VecDeque;
 
 #[derive(Clone, Debug, PartialEq)]
-pub enum Act { Drop, Dup, Swap, FlipBody(u16), CertOther, CertEmpty, CertGarbage, Resign, CertOtherResign, FlipSig, FlipKey, FlipRandom, StripExt(u16), FlipCipher, Fragment(u16), FragDupMid(u16), FragReorder(u16), SeqMinus1, Impostor, ImpostorChain, ExtraCert, RefragTailLost(u16), RefragEvery3(u16) }
+pub enum Act { Drop, Dup, Swap, FlipBody(u16), CertOther, CertEmpty, CertGarbage, Resign, CertOtherResign, FlipSig, FlipKey, FlipRandom, StripExt(u16), FlipCipher, Fragment(u16), FragDupMid(u16), FragReorder(u16), SeqMinus1, Impostor, ImpostorChain, ExtraCert, RefragTailLost(u16), RefragEvery3(u16), PreInject(u8) }
 
 #[derive(Clone, Debug, PartialEq)]
 pub struct Rule { pub from_client: bool, pub typ: u8, pub act: Act }
@@ -32,7 +32,8 @@ impl Script {
             Act::FlipRandom => "fliprandom".into(), Act::StripExt(e) => format!("strip{e}"), Act::FlipCipher => "flipcipher".into(),
             Act::Fragment(n) => format!("frag{n}"), Act::FragDupMid(n) => format!("fragdup{n}"), Act::FragReorder(n) => format!("fragreorder{n}"),
             Act::SeqMinus1 => "seqminus1".into(), Act::Impostor => "impostor".into(), Act::ImpostorChain => "impostorchain".into(),
-            Act::ExtraCert => "extracert".into(), Act::RefragTailLost(n) => format!("refragtaillost{n}"), Act::RefragEvery3(n) => format!("refragevery{n}") })).collect();
+            Act::ExtraCert => "extracert".into(), Act::RefragTailLost(n) => format!("refragtaillost{n}"), Act::RefragEvery3(n) => format!("refragevery{n}"),
+            Act::PreInject(ct) => format!("preinject{ct}") })).collect();
         format!("ce={} se={} {}", self.ce, self.se, if rs.is_empty() { "-".into() } else { rs.join(";") })
     }
     pub fn parse(s: &str) -> Script {
@@ -48,6 +49,7 @@ impl Script {
                 "garbage" => Act::CertGarbage, "resign" => Act::Resign, "otherresign" => Act::CertOtherResign, "flipsig" => Act::FlipSig,
                 "flipkey" => Act::FlipKey, "fliprandom" => Act::FlipRandom, "flipcipher" => Act::FlipCipher, "seqminus1" => Act::SeqMinus1, "impostor" => Act::Impostor, "impostorchain" => Act::ImpostorChain, "extracert" => Act::ExtraCert,
                 x if x.starts_with("flipbody") => Act::FlipBody(num("flipbody")), x if x.starts_with("strip") => Act::StripExt(num("strip")),
+                x if x.starts_with("preinject") => Act::PreInject(num("preinject") as u8),
                 x if x.starts_with("refragtaillost") => Act::RefragTailLost(num("refragtaillost")), x if x.starts_with("refragevery") => Act::RefragEvery3(num("refragevery")),
                 x if x.starts_with("fragdup") => Act::FragDupMid(num("fragdup")), x if x.starts_with("fragreorder") => Act::FragReorder(num("fragreorder")),
                 x if x.starts_with("frag") => Act::Fragment(num("frag")), x => panic!("bad act {x}") };
@@ -130,6 +132,12 @@ fn apply(act: &Act, dg: &[u8], atk: &Attacker, randoms: &(Vec<u8>, Vec<u8>), occ
             // renumber the message (an on-path party closing the gap after dropping its predecessor)
             let r = &parse_records(dg)[0]; let m = &parse_hs(&r.body)[0];
             vec![record_bytes(22, (r.vmaj, r.vmin), r.epoch, r.seq, &hs_bytes(m.typ, m.total, m.seq.wrapping_sub(1), m.off, &m.body))]
+        }
+        Act::PreInject(ct) => {
+            // a clear-text record of the given content type arrives just before this datagram (from anybody):
+            // application data, close_notify, ChangeCipherSpec, or a Finished with an arbitrary verify_data
+            let payload: Vec<u8> = match ct { 21 => vec![1, 0], 20 => vec![1], 22 => hs_bytes(20, 12, 9, 0, &[0x5A; 12]), _ => b"clear-text application data".to_vec() };
+            vec![record_bytes(*ct, (254, 253), 0, 99, &payload), dg.to_vec()]
         }
         Act::RefragTailLost(a) | Act::RefragEvery3(a) => {
             // legal re-fragmentation by the path: correct fragment_offset / fragment_length, a different split on
@@ -308,6 +316,12 @@ pub fn scripts(thorough: bool, rng: &mut Rng) -> Vec<Script> {
         vec![r(true, 20, Act::Dup)], vec![r(false, 20, Act::Dup)],
         vec![r(false, 11, Act::Fragment(100))], vec![r(false, 12, Act::Fragment(30))],
         vec![r(false, 0, Act::Impostor)], vec![r(false, 0, Act::ImpostorChain)], vec![r(false, 0, Act::ExtraCert)],
+        // clear-text records injected at every stage of the handshake (before keys, between keys and Connected)
+        vec![r(false, 2, Act::PreInject(23))], vec![r(false, 14, Act::PreInject(23))], vec![r(false, 200, Act::PreInject(23))], vec![r(false, 20, Act::PreInject(23))],
+        vec![r(true, 16, Act::PreInject(23))], vec![r(true, 200, Act::PreInject(23))], vec![r(true, 20, Act::PreInject(23))],
+        vec![r(false, 2, Act::PreInject(21))], vec![r(false, 200, Act::PreInject(21))], vec![r(false, 20, Act::PreInject(21))],
+        vec![r(true, 16, Act::PreInject(21))], vec![r(true, 200, Act::PreInject(21))], vec![r(true, 20, Act::PreInject(21))],
+        vec![r(false, 20, Act::PreInject(22))], vec![r(true, 20, Act::PreInject(22))], vec![r(false, 12, Act::PreInject(20))],
         vec![r(false, 12, Act::Drop), r(false, 14, Act::SeqMinus1)],
         vec![r(false, 11, Act::Drop), r(false, 12, Act::SeqMinus1)],
     ];
@@ -363,6 +377,41 @@ fn fp_cases(run: &mut Run, rng: &mut Rng, n: usize) {
     }
 }
 
+/// `SessionDescription::dtls_fingerprint`: fingerprint attributes at session level and in media sections
+fn sdpfp_cases(run: &mut Run, rng: &mut Rng, n: usize) {
+    use rustrtc::sdp::{Attribute, MediaKind, MediaSection, SdpType, SessionDescription};
+    let fps = ["AA:BB:CC:DD", "aa:bb:cc:dd", "aabbccdd", "AA:BB:CC:EE", "AA:BB:CC", "zz:11", "", "AA:BB:CC:DD:"];
+    let algs = ["sha-256", "SHA-256", "sha-1", "Sha-256"];
+    for _ in 0..n {
+        let mut desc = SessionDescription::new(SdpType::Offer);
+        let nmedia = rng.below(3) as usize;
+        for i in 0..nmedia { desc.media_sections.push(MediaSection::new(MediaKind::Audio, i.to_string())); }
+        let mut args_text = vec![];
+        let k = rng.below(4) as usize;
+        // attributes are visited session first, then media sections in order: generate in that order
+        let mut slots: Vec<usize> = (0..k).map(|_| rng.below(nmedia as u64 + 1) as usize).collect();
+        slots.sort();
+        for slot in slots {
+            let val: Option<String> = match rng.below(12) {
+                0 => None,
+                1 => Some((*rng.pick(&algs)).to_string()),
+                2 => Some(format!("{} {} extra", rng.pick(&algs), rng.pick(&fps))),
+                3 => Some(format!("  {}   {}  ", rng.pick(&algs), rng.pick(&fps))),
+                _ => Some(format!("{} {}", rng.pick(&algs), rng.pick(&fps))),
+            };
+            args_text.push(match &val { None => "!".to_string(), Some(v) => hex(v.as_bytes()) });
+            let attr = Attribute::new("fingerprint", val);
+            if slot == 0 { desc.session.attributes.push(attr); } else { desc.media_sections[slot - 1].attributes.push(attr); }
+        }
+        // unrelated attributes must not matter
+        desc.session.attributes.push(Attribute::new("setup", Some("actpass".into())));
+        let out = match desc.dtls_fingerprint() { Err(_) => "err".to_string(), Ok(None) => "none".into(),
+            Ok(Some(f)) => format!("ok:{}:{}", hex(f.algorithm.as_bytes()), hex(f.value.as_bytes())) };
+        run.case("sdpfp", &args_text.join(" "), &out, out.starts_with("ok"));
+        run.count(&format!("sdpfp_{}", &out[..out.len().min(3)]));
+    }
+}
+
 pub fn run(args: &Args) {
     let rt = tokio::runtime::Builder::new_current_thread().enable_all().build().unwrap();
     if let Some(case) = &args.replay {
@@ -396,5 +445,6 @@ pub fn run(args: &Args) {
         if !done { run.count("script_skipped_timing"); }
     }
     fp_cases(&mut run, &mut rng, if args.tier_thorough { 50000 } else { 600 });
+    sdpfp_cases(&mut run, &mut rng, if args.tier_thorough { 20000 } else { 500 });
     run.finish();
 }
